@@ -11,10 +11,10 @@ func init() {
 }
 
 type vpT1 struct {
-	A        string         `yaml:"a"`
-	B        string         `yaml:"b" aliases:"bb,bbb"`
-	C        string         `yaml:"c,omitempty"`
-	Skip     string         `yaml:"-"`
+	A        string `yaml:"a"`
+	B        string `yaml:"b" aliases:"bb,bbb"`
+	C        string `yaml:"c,omitempty"`
+	Skip     string `yaml:"-"`
 	Untagged string
 	hidden   string
 	Rest     map[string]any `yaml:",inline"`
@@ -360,14 +360,14 @@ func vpH_c16_inline_struct() {
 func init() { vpRegister("c16_scalar_kinds", vpH_c16_scalar_kinds) }
 
 type vpT4 struct {
-	S    string   `yaml:"s"`
-	I    int      `yaml:"i"`
-	F    float64  `yaml:"f"`
-	B    bool     `yaml:"b"`
-	A    any      `yaml:"a"`
-	LA   []any    `yaml:"la"`
-	LS   []string `yaml:"ls"`
-	LI   []int    `yaml:"li"`
+	S    string         `yaml:"s"`
+	I    int            `yaml:"i"`
+	F    float64        `yaml:"f"`
+	B    bool           `yaml:"b"`
+	A    any            `yaml:"a"`
+	LA   []any          `yaml:"la"`
+	LS   []string       `yaml:"ls"`
+	LI   []int          `yaml:"li"`
 	Rest map[string]any `yaml:",inline"`
 }
 
